@@ -251,6 +251,7 @@ LEVEL_TEXT = ('Generated-input search: the synthesis operator of DTCWTInverse is
               'inverse; dense pyramids with generated absence patterns (None / 0-dim / empty tensor, lowpass and any '
               'levels) are compared with the reference fed explicit zeros, shape and dtype included.')
 LEVEL_TEXT += (' Also generated: output layouts, filters as arrays, modules with a past (load_state_dict, other-precision call), autograd contexts; thorough tier adds two coverage-guided atheris campaigns on the same oracle.')
+LEVEL_TEXT += (' Round 10: a sibling inverse with another filter pair constructed and used between construction and use.')
 LEVEL_NOTE = ('Trusts dtcwt 0.14; sampled sizes <= 32x32, J <= 4; open finding KF-D9-ambiguous (absent level with no finer '
               'level present after a pad-to-4) is classified by predicate; relies on the fix: commit for DTCWTInverse.')
 TECHNIQUE = 'property-based testing (Hypothesis), differential oracle NumPy dtcwt inverse on extracted synthesis operators'
